@@ -110,7 +110,8 @@ def make_subscribers(kind, label, signals, rig_log, names):
                 return g
             if kind == "raising":
                 async def g(key=None, result=None):
-                    raise RuntimeError(f"subscriber {name} fails")
+                    # (texts a failing subscriber really produces: dict reprs, format specs, lone braces)
+                    raise RuntimeError(["subscriber %s fails" % name, "bad payload {'k': 1}", "{0} {name} }{", "100%s %(x)d", ""][len(name) % 5])
             elif kind == "slow":
                 async def g(key=None, id_=None):
                     await asyncio.sleep(0.4)
